@@ -32,7 +32,10 @@ RULE = ("rounds of 2..16 client threads, each opening real TCP connections to on
         "server that gives up on a long request and moves on is exposed. Link-fault rounds break "
         "the link at a seeded exchange and let the next 1..3 reconnections find no device while "
         "three clients keep sending, fall silent for 1.3..2.4 s and resume: any exchange performed outside a request "
-        "(e.g. by a background retry) belongs to no interval and is reported")
+        "(e.g. by a background retry) belongs to no interval and is reported. Late-answer rounds "
+        "reach the signer over the TCP transport (a byte stream) and make one answer take "
+        "10.5..61 s of virtual time: an answer that is given up on still arrives and would be "
+        "read as the answer to the next exchange")
 ASSUMPTIONS = [
     "schedules are those the OS produces under injected device delays; not enumerated",
     "a client whose connection times out is left open in the history (counted, not judged)",
@@ -42,23 +45,25 @@ FLOORS = {"quick": {"evaluations": 120, "pending_overlap_pairs": 150, "apdus_att
                     "slow_request_rounds": 1, "link_fault_rounds": 3,
                     "device_error_replies_in_fault_rounds": 3,
                     "state_replies_compared_with_device_state": 30,
-                    "advances_refused_by_device": 10},
+                    "advances_refused_by_device": 10, "late_answer_rounds_over_tcp": 2},
           "thorough": {"evaluations": 15000, "pending_overlap_pairs": 100000,
                        "apdus_attributed": 200000, "replies_matched": 15000, "distinct": 300,
                        "slow_request_rounds": 5, "link_fault_rounds": 60,
                        "device_error_replies_in_fault_rounds": 100,
                        "state_replies_compared_with_device_state": 3000,
-                       "advances_refused_by_device": 1000}}
+                       "advances_refused_by_device": 1000, "late_answer_rounds_over_tcp": 40}}
 
 
 def shards(tier, seed):
     if tier == "quick":
         return [{"seed": seed * 100 + i, "rounds": 2, "max_clients": 8, "per_client": 3,
                  "slow": [6.5] if i == 0 else [],
-                 "fault_rounds": 1 if 1 <= i <= 3 else 0} for i in range(8)]
+                 "fault_rounds": 1 if 1 <= i <= 3 else 0,
+                 "late": [12.5] if i in (4, 5) else []} for i in range(8)]
     slow = {0: [6.5], 1: [12.0], 2: [32.0], 3: [62.0], 4: [125.0]}
     return [{"seed": seed * 100 + i, "rounds": 60, "max_clients": 16, "per_client": 4,
-             "slow": slow.get(i, []), "fault_rounds": 6 if i >= 5 else 0} for i in range(16)]
+             "slow": slow.get(i, []), "fault_rounds": 6 if i >= 5 else 0,
+             "late": [10.5, 12.5, 30.0, 61.0] if i >= 5 else []} for i in range(16)]
 
 
 class Recorder:
@@ -101,13 +106,13 @@ def make_requests(rng):
     ]
 
 
-def fresh_device(rng):
+def fresh_device(rng, platform="ledger"):
     drng = random.Random(rng.getrandbits(32))
 
     def sigs():
         while True:
             yield der.make_sig(drng, "normal")[0]
-    dev = SimDevice(platform="ledger", mode=MODE_SIGNER,
+    dev = SimDevice(platform=platform, mode=MODE_SIGNER,
                     pubkeys={path_to_binary(p): b"\x04" + bytes(64) for p in ALL_PATHS},
                     hb={"signature": b"", "message": lambda ud: b"HSM:SIGNER:HB:" + ud,
                         "tweak": drng.randbytes(32), "pubkey": drng.randbytes(65)},
@@ -178,7 +183,7 @@ def expected_from_apdus(kind, apdus):
     return exp
 
 
-def run_round(acc, spec, rnd, rng, slow=None, fault=None):
+def run_round(acc, spec, rnd, rng, slow=None, fault=None, late=None):
     """fault: {"after": k, "efail": j, "kind": ...} - the link fails at the k-th exchange
     of the round and the next j reconnections find no device; clients keep sending for
     some seconds, so that any repair work done outside a request (a background retry)
@@ -188,7 +193,11 @@ def run_round(acc, spec, rnd, rng, slow=None, fault=None):
     from ..stack import Stack
     from comm.server import TCPServer
     rec = Recorder()
-    dev = fresh_device(rng)
+    # late: the signer is reached over TCP (a byte stream) and one of its answers takes
+    # `late` seconds of virtual time; should anything give up on that answer, it still
+    # arrives on the stream and must not be taken for the answer to a later exchange
+    dev = fresh_device(rng, "tcp" if late else "ledger")
+    slow = slow or (0.001 if late else None)
     nclients = rng.randint(2, spec["max_clients"]) if not slow else 3
     per = spec["per_client"] if not slow else 2
     if fault:
@@ -200,7 +209,11 @@ def run_round(acc, spec, rnd, rng, slow=None, fault=None):
         def hook(bus, apdu):
             if len(apdu) > 1 and apdu[1] in (0x10, 0x30, 0x21):
                 dev.state_epoch += 1
-            if slow and len(apdu) > 1 and apdu[1] == 0x20:
+            if late and len(apdu) > 3 and apdu[1] == 0x20 and apdu[2] == 1 and \
+                    not getattr(bus, "late_done", False):
+                bus.late_done = True
+                bus.next_answer_delay = late
+            elif slow and len(apdu) > 1 and apdu[1] == 0x20:
                 time.sleep(slow / 9.0)
             elif fault:
                 time.sleep(0.002 + delay_rng.random() * 0.006)
@@ -444,6 +457,9 @@ def run_shard(spec, acc):
     for k, total in enumerate(spec.get("slow", [])):
         acc.count("slow_request_rounds")
         run_round(acc, spec, 1000 + k, rng, slow=total)
+    for k, d in enumerate(spec.get("late", [])):
+        acc.count("late_answer_rounds_over_tcp")
+        run_round(acc, spec, 3000 + k, rng, late=d)
     for k in range(spec.get("fault_rounds", 0)):
         acc.count("link_fault_rounds")
         run_round(acc, spec, 2000 + k, rng, fault={
